@@ -118,6 +118,7 @@ class WorldJob(object):
         if rebuild:
             self.fresh_tree()
         pre = world.snapshot(self.root)
+        self.V_pre = self.compute_V()
         if real_crash:
             rec = self.run_forked(env, faults)
         else:
@@ -131,11 +132,23 @@ class WorldJob(object):
             self.stats['faults_fired'][k] = self.stats['faults_fired'].get(k, 0) + 1
         if faults and not rec['fired']:
             self.stats['faults_not_fired'] += 1
+        # files the command creates itself (temporaries) may carry pid / random names: they enter the digest by
+        # order of first appearance and by content, not by name
+        newmap = {}
+
+        def nn(e):
+            rp = e.get('rp')
+            if rp is not None and rp not in pre:
+                if rp not in newmap:
+                    newmap[rp] = '<new#%d>' % len(newmap)
+                return newmap[rp]
+            return e.get('p')
         self.digest.update(seeds.digest({
             'exit': rec['exit'], 'exc': rec['exc'], 'crashed': rec['crashed'],
-            'ev': [[e['c'], e.get('n', e.get('op')), e.get('p'), e.get('fault')] for e in rec['events']],
+            'ev': [[e['c'], e.get('n', e.get('op')), nn(e), e.get('fault')] for e in rec['events']],
             'out': hashlib.sha256(rec['stdout_b']).hexdigest(), 'outt': rec['stdout_t'].replace(self.root, '{ROOT}'),
-            'post': snap_digest(post)}).encode())
+            'post': snap_digest(dict((k, v) for k, v in post.items() if k in pre)),
+            'new': sorted(hashlib.sha256(v[1]).hexdigest() if v[0] == 'f' else v[0] for k, v in post.items() if k not in pre)}).encode())
         return pre, rec, post
 
     def full_env(self, env):
@@ -194,6 +207,19 @@ class WorldJob(object):
                 'stdout_evs': [(sq, t, p) for (sq, s, t, p) in std if s == 'stdout'],
                 'stderr_len': 0}
 
+    def compute_V(self):
+        """The files the arguments point at: independent walk of the tree as it is BEFORE the run."""
+        c = self.cmd
+        if c.stdin is not None or '-' in c.paths:
+            return None
+        V = []
+        for rp in climodel.walk_model([p.replace('{ROOT}', self.root) for p in c.paths], self.abs_cwd()):
+            if rp == self.root or not rp.startswith(self.root + os.sep):
+                V.append(None)
+            else:
+                V.append(rp[len(self.root) + 1:])
+        return V
+
     # ------------------------------------------------------------------------------- validity (model side)
     def model_invalid(self):
         c = self.cmd
@@ -220,7 +246,7 @@ class WorldJob(object):
         return None
 
     # ------------------------------------------------------------------------------- judging
-    def judge(self, pre, rec, post, env, run_desc, faulty):
+    def judge(self, pre, rec, post, env, run_desc, faulty, ignore=()):
         """Judge one execution.  Returns info dict used by cross-run rules."""
         c = self.cmd
         force = self.force(env)
@@ -272,14 +298,7 @@ class WorldJob(object):
         info['P'] = P
 
         # ---- V: the files the arguments point at (independent walk of the pre-state tree)
-        V = None
-        if c.stdin is None:
-            V = []
-            for rp in climodel.walk_model([p.replace('{ROOT}', self.root) for p in c.paths], self.abs_cwd()):
-                if rp == self.root or not rp.startswith(self.root + os.sep):
-                    V.append(None)
-                else:
-                    V.append(rp[len(self.root) + 1:])
+        V = self.V_pre
         out_rel = self.resolve(c.output) if c.output is not None else None
         targets = set(v for v in (V or []) if v is not None)
         if c.output is not None and out_rel is not None and mode == 'output':
@@ -301,13 +320,24 @@ class WorldJob(object):
             visits = [(c.paths[0], self.resolve(c.paths[0]))]
         fault_sq = fired['s'] if fired else None
         for k, (shown, rp_in) in enumerate(visits):
+            if rp_in in ignore:
+                continue        # the command's own leftover from the crashed run: outside the model
             content = c.stdin if c.stdin is not None else (state.get(rp_in) if rp_in is not None else None)
             sink = rp_in if mode == 'in-place' else (out_rel if mode == 'output' else None)
             last = k == len(visits) - 1
             res = self.model.visit(content, self.kw, force)
             self.stats['visits'] += 1
+            if res[0] == 'either':
+                # equal size: the command may emit either; follow what it actually did
+                if mode == 'stdout':
+                    seen = rec['stdout_b']
+                else:
+                    seen = post_f.get(sink) if sink is not None else None
+                res = ('keep', content) if seen == content else ('emit', res[1])
+                self.probe('equal_size_either')
             related = fired is not None and last and fired['ev'] != 'scandir' and fired['ev'] != 'stdout' and \
-                fired.get('rp') is not None and fired['rp'] in (rp_in, sink)
+                fired.get('rp') is not None and (fired['rp'] in (rp_in, sink) or fired['rp'] not in pre)
+            # (a fault on a file the command created itself - a temporary next to the target - belongs to the visit in flight)
             if fired is not None and last and fired['ev'] == 'stdout' and mode == 'stdout':
                 related = True
             if related:
@@ -364,7 +394,7 @@ class WorldJob(object):
         # ---- R1: modifying operations only on targets (for entries that existed before the run)
         for m in rec['mods']:
             rp = m.get('rp')
-            if rp is None or rp not in pre:
+            if rp is None or rp not in pre or rp in ignore:
                 continue
             if rp not in targets:
                 self.vio('C15', 'R1', 'modifying operation %s on %s, which is not a target' % (m['op'], rp), run_desc,
@@ -377,6 +407,8 @@ class WorldJob(object):
         write_phase = fired is not None and fired['ev'] in WRITE_PHASE
         leftover = []
         for rel in sorted(set(pre) | set(post)):
+            if rel in ignore:
+                continue
             a, b = pre.get(rel), post.get(rel)
             if a is not None and a[0] != 'f' or b is not None and b[0] != 'f':
                 # directories and links: must be identical, apart from a new file entry handled below
@@ -421,6 +453,7 @@ class WorldJob(object):
                      key=dict(fkey or {}, file_role=role))
         if leftover:
             self.probe('leftover_temp', len(leftover))
+        info['leftover'] = leftover
 
         # ---- in-flight file of a faulty run
         if inflight is not None:
@@ -596,12 +629,13 @@ class WorldJob(object):
             pre1, rec1, post1 = self.run_once(env0, plan)
             if not rec1['fired']:
                 continue
-            self.judge(pre1, rec1, post1, env0, desc, faulty=True)
+            t1 = self.judge(pre1, rec1, post1, env0, desc, faulty=True)
             self.fault_probes(rec1, t0)
             if i in real_set:
                 pre2, rec2, post2 = self.run_once(env0, plan, real_crash=True)
                 self.stats['real_crash_crosschecks'] += 1
-                if snap_digest(post2) != snap_digest(post1) or not rec2['crashed']:
+                same_old = all(post1.get(k) == post2.get(k) for k in pre1)
+                if not same_old or not rec2['crashed']:
                     self.notes.append('HARNESS real crash and simulated crash disagree for %r (crashed=%s)' % (plan, rec2['crashed']))
                     self.stats['real_crash_mismatch'] = self.stats.get('real_crash_mismatch', 0) + 1
             if do_restart:
@@ -611,7 +645,7 @@ class WorldJob(object):
                 pre3, rec3, post3 = self.run_once(env0, None, rebuild=False)
                 d3 = dict(desc, phase='restart')
                 nv = len(self.violations)
-                self.judge(pre3, rec3, post3, env0, d3, faulty=False)
+                self.judge(pre3, rec3, post3, env0, d3, faulty=False, ignore=set(t1.get('leftover') or ()))
                 if torn:
                     # the torn file is outside the model already (known finding); S-rules on it are not meaningful
                     self.violations[nv:] = [v for v in self.violations[nv:] if v['property'] == 'C15' and v['rule'] in ('R1',)]
@@ -647,7 +681,9 @@ class WorldJob(object):
                 return
             want = src if len(forced) > len(src) else forced
             self.count_z2(src, forced, mode)
-            if rec['stdout_b'] != want:
+            if len(forced) == len(src) and rec['stdout_b'] in (src, forced):
+                pass
+            elif rec['stdout_b'] != want:
                 self.vio('C14', 'Z2', 'stdout holds %d bytes; source %d, forced minified form %d: expected %s' % (
                     len(rec['stdout_b']), len(src), len(forced), 'the source unchanged' if want is src else 'the minified form'), desc, key={'mode': mode})
         elif mode == 'output':
@@ -658,7 +694,9 @@ class WorldJob(object):
                 return
             want = src if len(forced) > len(src) else forced
             self.count_z2(src, forced, mode + ('-stdin' if self.cmd.stdin is not None else ''))
-            if post0.get(out_rel) != want:
+            if len(forced) == len(src) and post0.get(out_rel) in (src, forced):
+                pass
+            elif post0.get(out_rel) != want:
                 self.vio('C14', 'Z2', '--output file holds %s bytes; source %d, forced minified form %d' % (
                     len(post0.get(out_rel) or b''), len(src), len(forced)), desc, key={'mode': mode})
         else:
@@ -677,6 +715,8 @@ class WorldJob(object):
                     if post0.get(rel) != src or rel in opened:
                         self.vio('C14', 'Z2', 'in-place file %s: minified form (%d) is larger than the source (%d) but the file was %s' % (
                             rel, len(forced), len(src), 'opened for writing' if post0.get(rel) == src else 'changed'), desc, key={'mode': mode})
+                elif len(forced) == len(src) and post0.get(rel) == src:
+                    pass
                 elif post0.get(rel) != forced:
                     self.vio('C14', 'Z2', 'in-place file %s: minified form (%d) fits but the file holds something else (%d bytes)' % (
                         rel, len(forced), len(post0.get(rel) or b'')), desc, key={'mode': mode})
@@ -798,8 +838,9 @@ def run_world_job(spec):
         world.rmtree(job.root)
     pre, rec, post, t0 = job.twin
     summary = {
-        'exit': rec['exit'], 'exc': rec['exc'], 'mode': job.cmd.mode(), 'P': t0.get('P'),
-        'visits': [{'path': v['path'], 'res': v['res'], 'n_in': v.get('n_in'), 'n_out': v.get('n_out')} for v in t0.get('visits', [])],
+        'exit': rec['exit'], 'exc': rec['exc'], 'mode': job.cmd.mode(), 'P': [x[:120] for x in (t0.get('P') or [])[:24]] if t0.get('P') is not None else None,
+        'n_listed': len(t0.get('P') or []),
+        'visits': [{'path': v['path'][:120], 'res': v['res'], 'n_in': v.get('n_in'), 'n_out': v.get('n_out')} for v in t0.get('visits', [])[:24]],
         'events': ['%s#%s %s' % (e['c'], e.get('n', e.get('op')), e.get('rp') if e.get('rp') is not None else '') for e in rec['events']][:60],
         'invalid': t0.get('invalid'), 'tree_entries': len(pre), 'stdout_bytes': len(rec['stdout_b']),
     }
